@@ -215,6 +215,11 @@ def rule_m2345(prog: Program, col: Collector) -> None:
     rets = list(ft.of_kind("return"))
     col.check(bool(rets) and all(r.value == info[0].term for r in rets), ref.where(), ref.short, "normalize_game returns that norm-info", construct="norminfo-return",
               necessity="the caller de-normalises with the returned info: it must be the info captured before the game was changed")
+    early = [r for r in rets if r.seq < max(m.seq for m in muts) or any(f[0] == "if" and not (len(f) > 4 and f[4] == "implied") for f in r.ctx)]
+    col.check(not early, ref.where(early[0].node if early else None), ref.short,
+              "normalize_game returns only after the type dispatch, on every path (no shortcut that leaves the game as it is)", construct="normalise-shortcut",
+              necessity="`already normalised` cannot be read off the surplus alone: a game with surplus exactly 1 and non-zero singletons (the registered K-budget family with "
+                        "k = n - 1) would keep its singletons: values outside [0, 1], grand coalition not 1, the gym observation outside its declared box")
 
     # the norm-info is computed for every game the library accepts: additive float games have a surplus of about -1e-16
     nref = prog.func("normalize._get_norminfo")
